@@ -229,7 +229,8 @@ def fastDefects (Mp : MapEnv) (NF : List String) (compact sn : Bool) (cls : Fiel
       ++ (if noDecV cls x then [] else ["fast:extras-dropped"])
       ++ (if sn && fields.any (fun p => (getAttr defaults attrs p.1).isNone) then ["fast:serialize-none"] else [])
       ++ (if compact && fields.length == 1
-            && !(c.required == names && !c.addl) then ["fast:compact-conditions"] else [])
+            && !(c.required == names && !c.addl
+                 && !fields.any (fun p => (getAttr defaults attrs p.1).isNone)) then ["fast:compact-conditions"] else [])
       ++ (if cascades Mp [] cls then ["fast:mapper-cascade"] else [])).eraseDups
   | _ => ["not-a-class"]
 
